@@ -1222,7 +1222,7 @@ def run(ctx):
 
 def replay(ctx, path):
     import replaylib
-    r = replaylib.load("C02", path)
+    r = replaylib.load(ctx, path)
     if "op" not in r:
         return replaylib.obligations("C02", run, r, path)
     exe = build(ctx)
